@@ -14,6 +14,7 @@ M_CLASS_HIDES = "class_attribute_hides_outer_binding"
 M_LET_LIST = "let_nonlocal_removal_skips_next_name"
 M_GENFN_SETX = "setx_of_let_name_in_generator_function_comprehension"
 M_FIRST_ITER = "first_iterable_reads_a_variable_of_the_form"
+M_DEFN_DECLARED = "defn_of_a_name_declared_nonlocal_binds_a_fresh_local"
 
 
 def _m_class_nonlocal(rec, params):
@@ -53,6 +54,45 @@ def _m_first_iter(rec, params):
     o = rec.get("observed", {})
     return (rec.get("key") in ("log-differs", "exception-differs", "globals-differ")
             and o.get("variants", {}).get("first_iterable_hoisted") == "pass")
+
+
+def _m_defn_declared(rec, params):
+    # the failure disappears exactly when every (defn NAME ..) of a name that its function declares nonlocal/global
+    # is written (setv NAME (fn ..)) -- the same program for the reference
+    o = rec.get("observed", {})
+    return (rec.get("key") in ("log-differs", "exception-differs", "globals-differ")
+            and o.get("variants", {}).get("declared_defn_as_setv") == "pass")
+
+
+def declared_defn_as_setv(forms):
+    """(defn NAME params body) -> (setv NAME (fn params body)) wherever the function that directly contains the
+    defn declares NAME nonlocal or global; None if there is no such defn"""
+    changed = [False]
+
+    def declared_in(body):
+        return {x for f in sp.direct_forms(body) if f[0] in ("nonlocal", "global") for x in f[1]}
+
+    def w(f, declared):
+        if isinstance(f, tuple) and f:
+            k = f[0]
+            if k == "defn":
+                body = [w(b, declared_in(f[3])) for b in f[3]]
+                params = [w(p, declared) if isinstance(p, tuple) else p for p in f[2]]
+                if f[1] in declared:
+                    changed[0] = True
+                    return ("setv", f[1], ("fn", params, body))
+                return ("defn", f[1], params, body)
+            if k == "fn":
+                params = [w(p, declared) if isinstance(p, tuple) else p for p in f[1]]
+                return ("fn", params, [w(b, declared_in(f[2])) for b in f[2]])
+            if k == "class":
+                return ("class", f[1], f[2], [w(m, set()) for m in f[3]])
+            return tuple(w(a, declared) if isinstance(a, (tuple, list)) else a for a in f)
+        if isinstance(f, list):
+            return [w(a, declared) if isinstance(a, (tuple, list)) else a for a in f]
+        return f
+    out = [w(f, set()) for f in forms]
+    return out if changed[0] else None
 
 
 def hoist_first_iterables(forms):
@@ -109,6 +149,7 @@ def register_matchers(chk, pid):
     chk.matchers[p + M_LET_LIST] = _m_let_list
     chk.matchers[p + M_GENFN_SETX] = _m_genfn_setx
     chk.matchers[p + M_FIRST_ITER] = _m_first_iter
+    chk.matchers[p + M_DEFN_DECLARED] = _m_defn_declared
 
 
 # ------------------------------------------------------------------ correspondence (T3)
@@ -273,7 +314,8 @@ def oracle(chk, pid, labelled, need):
         forms = labelled[i][1]
         for name, tf in (("class_attributes_renamed", rename_class_attrs), ("declarations_split", split_declarations),
                          ("both", lambda f: split_declarations(rename_class_attrs(f))),
-                         ("first_iterable_hoisted", hoist_first_iterables)):
+                         ("first_iterable_hoisted", hoist_first_iterables),
+                         ("declared_defn_as_setv", declared_defn_as_setv)):
             vf = tf(forms)
             if vf is not None:
                 variants.append((i, name, vf))
